@@ -236,8 +236,26 @@ impl PartialOrd for Cell {
 }
 
 impl Ord for Cell {
+    // the order the map keeps its keys in: values of one type that have no order of
+    // their own (sort rejects them) are still different keys
     fn cmp(&self, other: &Cell) -> Ordering {
-        self.partial_cmp(other).unwrap_or(Ordering::Equal)
+        if let Some(o) = self.partial_cmp(other) {
+            return o;
+        }
+        match (self.value(), other.value()) {
+            (Cell::Flag(a), Cell::Flag(b)) => a.cmp(b),
+            (Cell::Bitstr(a), Cell::Bitstr(b)) => a.bits().cmp(b.bits()),
+            (Cell::Vector(a), Cell::Vector(b)) => a.iter().cmp(b.iter()),
+            (Cell::Map(a), Cell::Map(b)) => a.iter().cmp(b.iter()),
+            (Cell::Fun(a), Cell::Fun(b)) => {
+                let key = |x: &Xfn| match x {
+                    Xfn::Interp(addr) => (0, *addr),
+                    Xfn::Native(p) => (1, p.0 as usize),
+                };
+                key(a).cmp(&key(b))
+            }
+            _ => Ordering::Equal,
+        }
     }
 }
 impl Eq for Cell {}
